@@ -9,7 +9,9 @@
       `isReady`, `startParams`
   * `Coordinator.initiate` (ready-message loop)                  → `initiate` (fold over the arrival sequence)
   * `Coordinator.waitForStart` + `watchExecution` on a relayer that is not the coordinator → `runWait`
-      (step machine over initiate / start / fail messages)
+      (step machine over initiate / start / fail messages); `runWait2` keeps the coordinator known to waitForStart and
+      the one known to watchExecution apart (they differ in a retried attempt)
+  * the `InitiatePeriod` ticker of `initiate` → `Arr.tick` in `initiateT`
 -/
 import SygmaModel.Base
 import SygmaModel.Model.C07Keccak
@@ -69,6 +71,29 @@ def initiateFrom (key : α → Nat) (cfg : ICfg α) : List α → List α → Na
 
 def initiate (key : α → Nat) (cfg : ICfg α) (arrivals : List α) : Option (Nat × List α) :=
   initiateFrom key cfg [cfg.self] arrivals 0
+
+/-- what reaches the loop of `initiate`: a ready message, or a tick of the `InitiatePeriod` ticker -/
+inductive Arr (α : Type) where
+  | ready (p : α)
+  | tick
+deriving DecidableEq, Repr
+
+def readiesOf : List (Arr α) → List α
+  | [] => []
+  | .ready p :: es => p :: readiesOf es
+  | .tick :: es => readiesOf es
+
+/-- the loop of `initiate` with the ticker: a tick re-broadcasts the initiate message and KEEPS the ready set
+    (in particular the coordinator's own entry) -/
+def initiateTFrom (key : α → Nat) (cfg : ICfg α) : List α → List (Arr α) → Nat → Option (Nat × List α)
+  | _, [], _ => none
+  | rs, .tick :: es, n => initiateTFrom key cfg rs es (n + 1)
+  | rs, .ready p :: es, n =>
+    let rs' := addReady cfg rs p
+    if isReady cfg rs' then some (n + 1, startParams key cfg rs') else initiateTFrom key cfg rs' es (n + 1)
+
+def initiateT (key : α → Nat) (cfg : ICfg α) (evs : List (Arr α)) : Option (Nat × List α) :=
+  initiateTFrom key cfg [cfg.self] evs 0
 
 /-- the C07 clause about the announced subset, as a decidable predicate on ANY candidate subset `S` -/
 def SubsetOk (cfg : ICfg α) (arrivals : List α) (S : List α) : Prop :=
@@ -142,9 +167,22 @@ def stepWait (c : Option α) (s : WSt α) (e : Ev α) : WSt α :=
     | .fail f => if failFrom c f then { s with phase := .finished .fail } else s
     | _ => s      -- waitForStart is inside `p.Wait()`: initiate/start messages are no longer read
 
+/-- the same step with the two senders kept apart: `cw` is the coordinator `waitForStart` was given, `cf` the one
+    `watchExecution` was given. First attempt: both the static coordinator. Retried attempt: `cw` = the bully-elected
+    coordinator, `cf` = none (handleError starts its watcher with the empty peer id). Left-out relayer: both none. -/
+def stepWait2 (cw cf : Option α) (s : WSt α) (e : Ev α) : WSt α :=
+  match e with
+  | .fail f =>
+    match s.phase with
+    | .finished _ => s
+    | _ => if failFrom cf f then { s with phase := .finished .fail } else s
+  | _ => stepWait cw s e
+
 def initW : WSt α := ⟨.waiting, [], []⟩
 
 def runWait (c : Option α) (tr : List (Ev α)) : WSt α := tr.foldl (stepWait c) initW
+
+def runWait2 (cw cf : Option α) (tr : List (Ev α)) : WSt α := tr.foldl (stepWait2 cw cf) initW
 
 def WSt.res (s : WSt α) : Res :=
   match s.phase with
